@@ -82,6 +82,12 @@ func (o *Operation) Equal(o2 *Operation) error {
 		return fmt.Errorf("o1.Payload (%s) != o2.Payload (%s)", o.Payload, o2.Payload)
 	}
 
+	// the round is part of what was issued: the answer to a reinit operation is applied to the
+	// round its file names
+	if o.DKGIdentifier != o2.DKGIdentifier {
+		return fmt.Errorf("o1.DKGIdentifier (%s) != o2.DKGIdentifier (%s)", o.DKGIdentifier, o2.DKGIdentifier)
+	}
+
 	return nil
 }
 
